@@ -28,6 +28,10 @@ let mode_of_string (m : string) : int =
 let call_letter = function
   | FilesSaveC16b.CTopicUpdateOnMessage -> "T" | FilesSaveC16b.CMessageSave -> "M"
   | FilesSaveC16b.CSubsUpdate -> "S" | FilesSaveC16b.CFileLinkAttachments -> "L"
+let desc_call_letter = function
+  | FilesDescC16c.DUserUpdateC16c -> "U" | FilesDescC16c.DTopicUpdateC16c -> "T"
+  | FilesDescC16c.DSubsUpdateC16c -> "S" | FilesDescC16c.DFileLinkC16c -> "L"
+let desc_token = ref 100
 let uploaded : int list ref = ref []
 let pubs : (int * int) list ref = ref []      (* publish index -> topic index *)
 let owners : (string * string) list ref = ref []   (* topic -> the user that created it *)
@@ -246,4 +250,81 @@ let handle (w : string list) : string =
      | FilesSaveC16b.PubDenied -> "denied" | FilesSaveC16b.PubFailed -> "failed" | FilesSaveC16b.PubAccepted _ -> "accepted")
     ^ " marked=" ^ (if marked && saved then "1" else "0")
     ^ " calls=" ^ (if calls = [] then "-" else String.concat "," calls)
+  | "SVX" :: rest ->
+    (* largeFileServe with every request field (Sys/FilesServeC16c.v) *)
+    let m = kv rest in
+    let g = get m in
+    let has_query = g "kq" <> "-" || g "cq" <> "-" || g "sq" <> "-" || g "tq" <> "-" || g "asatt" <> "-" in
+    let url = expand (g "url") ^ (if has_query then "?q" else "") in
+    let r = { FilesServeC16c.dq_meth = meth (g "m");
+              dq_key_hdr = key (g "kh"); dq_key_query = key (g "kq"); dq_key_form = key (g "kf"); dq_key_cookie = key (g "kc");
+              dq_cred_xauth = cred (g "cx"); dq_cred_authz = cred (g "ca"); dq_cred_query = cred (g "cq");
+              dq_cred_form = cred (g "cf"); dq_cred_cookie = cred (g "cc");
+              dq_sid_query = sid (g "sq"); dq_sid_form = sid (g "sf");
+              dq_topic_query = topic (g "tq"); dq_topic_form = topic (g "tf");
+              dq_body_form = (g "body" = "form");
+              dq_handler = handler (g "mh"); dq_hdr = hdr (g "mh");
+              dq_found = false (* computed by serve_request_c16c from the store slice *) } in
+    let (o, sent) = FilesServeC16c.serve_request_c16c !st r (bytes_of_string serve_url) (bytes_of_string url) in
+    "SVX " ^ status o ^ " " ^
+    (match sent with
+     | Some f -> "served:" ^ index_of_id f.Files.f_id
+     | None -> effect (Files.effect_of o))
+  | ["SETX"; u; t; k; what; tpls] ->
+    (* Topic.replySetDesc (Sys/FilesDescC16c.v): the request environment from the line - a group topic is
+       changed by its owner only, desc.public / desc.private always differ from the stored values - and the
+       fault plan from the position k of the failing adapter call *)
+    let is_me = (t = "me") in
+    let cat = if is_me then FilesDescC16c.CatMeC16c else FilesDescC16c.CatGrpC16c in
+    let tname = if is_me then n_of_int 0 else n_of_string t in
+    let uid = n_of_string u in
+    let owner = is_me || (try List.assoc t !owners = u with Not_found -> false) in
+    let wants_core = (what = "pub" || what = "both") in
+    let wants_sub = (what = "priv" || what = "both") in
+    incr desc_token;
+    let tok = n_of_int !desc_token in
+    let rq = { FilesDescC16c.sq_pre = (if wants_core && not owner then FilesDescC16c.PreDeniedC16c else FilesDescC16c.PreOkC16c);
+               sq_core = (if wants_core then Some tok else None);
+               sq_sub = (if wants_sub then Some tok else None);
+               sq_urls = List.map bytes_of_string (expand_list tpls) } in
+    let s0 = { FilesDescC16c.dd_fs = !st; dd_public = []; dd_private = []; dd_calls = [] } in
+    let run ft = FilesDescC16c.set_desc_c16c ft true (bytes_of_string serve_url) s0 cat tname uid rq in
+    let nf = FilesDescC16c.no_desc_faults_c16c in
+    let ft =
+      if k = "-" then nf else
+      let (sn, _) = run nf in
+      match List.nth_opt (List.rev sn.FilesDescC16c.dd_calls) (int_of_string k - 1) with
+      | Some ((FilesDescC16c.DUserUpdateC16c | FilesDescC16c.DTopicUpdateC16c), _) -> { nf with FilesDescC16c.df_core = true }
+      | Some (FilesDescC16c.DSubsUpdateC16c, _) -> { nf with FilesDescC16c.df_subs = true }
+      | Some (FilesDescC16c.DFileLinkC16c, _) -> { nf with FilesDescC16c.df_link = true }
+      | None -> nf in
+    let (s1, o) = run ft in
+    st := s1.FilesDescC16c.dd_fs;
+    let calls = List.map (fun (c, failed) -> desc_call_letter c ^ (if failed then "!" else "")) (List.rev s1.FilesDescC16c.dd_calls) in
+    "SETX code=" ^ string_of_z (FilesDescC16c.code_of_c16c o) ^ " calls=" ^ (if calls = [] then "-" else String.concat "," calls)
+  | ["NEWACCX"; u; k; tpls] ->
+    (* replyCreateUser (Sys/FilesAccC16c.v); the driver sends no credentials and none are required *)
+    let uid = n_of_string u in
+    let s0 = { FilesAccC16c.aa_fs = !st; aa_calls = [] } in
+    let urls = List.map bytes_of_string (expand_list tpls) in
+    let run ft = FilesAccC16c.create_user_c16c ft true (bytes_of_string serve_url) s0 uid true urls in
+    let nf = FilesAccC16c.no_acc_faults_c16c in
+    let ft =
+      if k = "-" then nf else
+      let (sn, _) = run nf in
+      match List.nth_opt (List.rev sn.FilesAccC16c.aa_calls) (int_of_string k - 1) with
+      | Some (FilesAccC16c.AUniqueC16c, _) -> { nf with FilesAccC16c.af_unique = true }
+      | Some (FilesAccC16c.AUserCreateC16c, _) -> { nf with FilesAccC16c.af_create = true }
+      | Some (FilesAccC16c.ATopicShareC16c, _) -> { nf with FilesAccC16c.af_share = true }
+      | Some (FilesAccC16c.AAuthAddC16c, _) -> { nf with FilesAccC16c.af_auth = true }
+      | Some (FilesAccC16c.AFileLinkC16c, _) -> { nf with FilesAccC16c.af_link = true }
+      | Some (FilesAccC16c.AUserDeleteC16c, _) | None -> nf in
+    let (s1, o) = run ft in
+    st := s1.FilesAccC16c.aa_fs;
+    let letter = function
+      | FilesAccC16c.AUniqueC16c -> "Q" | FilesAccC16c.AUserCreateC16c -> "C" | FilesAccC16c.ATopicShareC16c -> "H"
+      | FilesAccC16c.AAuthAddC16c -> "A" | FilesAccC16c.AUserDeleteC16c -> "D" | FilesAccC16c.AFileLinkC16c -> "L" in
+    let calls = List.map (fun (c, failed) -> letter c ^ (if failed then "!" else "")) (List.rev s1.FilesAccC16c.aa_calls) in
+    "NEWACCX code=" ^ string_of_z o.FilesAccC16c.ao_code
+    ^ " calls=" ^ String.concat "," calls
   | _ -> "?"
